@@ -14,13 +14,11 @@ fn main() {
     vcore::core_configs!(cfg, run);
     // digit counts with odd factors and several divisors (rotation by whole digits permutes the digit
     // array in gcd(d, N) cycles)
-    cfg!(run, d8, 6, BigRef);
-    cfg!(run, d32, 6, BigRef);
-    if run.tier == Tier::Thorough {
-        cfg!(run, d8, 9, BigRef);
-        cfg!(run, d8, 10, BigRef);
-        cfg!(run, d16, 6, BigRef);
-        cfg!(run, d64, 6, BigRef);
+    // (the thorough list of core_configs contains these and more)
+    if run.tier == Tier::Quick {
+        cfg!(run, d8, 6, BigRef);
+        cfg!(run, d32, 6, BigRef);
+    } else {
         cfg!(run, d64, 12, BigRef);
     }
     std::process::exit(run.finish());
